@@ -208,9 +208,45 @@ Section Hash.
   Definition clean (P : project) : N -> content := fold_left clean_step P (fun _ => Empty).
 
   (* number of script executions of a build *)
+  Fixpoint history_runs (c : cfg) (Ps : list project) (w : wstate) : list (list (N * bool)) :=
+    match Ps with
+    | [] => []
+    | P :: r => (fix br (Q : project) (st : wstate) : list (N * bool) :=
+                   match Q with
+                   | [] => []
+                   | sd :: q => (sd_path sd, runs (cook_step c st sd)) :: br q (build_step c st sd)
+                   end) P w :: history_runs c r (build c P w)
+    end.
+
   Fixpoint build_runs (c : cfg) (P : project) (w : wstate) : list (N * bool) :=
     match P with
     | [] => []
     | sd :: r => (sd_path sd, runs (cook_step c w sd)) :: build_runs c r (build_step c w sd)
     end.
 End Hash.
+
+(* an executable stand-in for the directory hash (polynomial, 61-bit modulus) used to RUN the model *)
+Definition MODP : N := 2305843009213693951.
+Definition hash_poly (c : content) : Hsh :=
+  match c with
+  | Empty => 1
+  | Out d i => (fold_left (fun acc x => (acc * 1000003 + x + 7) mod MODP) i ((d * 31 + 11) mod MODP) + 4)%N
+  | Partial d => 2
+  | Garbage => 3
+  end%N.
+
+Definition dev_cfg : cfg := {| force := false; dev_rehash := true; clean_build := false |}.
+
+Fixpoint lookup_run (p : N) (l : list (N * bool)) : option bool :=
+  match l with [] => None | (q, b) :: r => if N.eqb p q then Some b else lookup_run p r end.
+
+(* observed decisions (workspace, script ran?) agree with the model's *)
+Definition runs_agree (model expected : list (N * bool)) : bool :=
+  forallb (fun pb => match lookup_run (fst pb) model with Some b => Bool.eqb b (snd pb) | None => false end) expected.
+
+Fixpoint history_agree (model expected : list (list (N * bool))) : bool :=
+  match model, expected with
+  | [], [] => true
+  | m :: mr, e :: er => runs_agree m e && history_agree mr er
+  | _, _ => false
+  end.
